@@ -289,6 +289,17 @@ class Entity(Block):
                         f"assignment to port '{name}' failed (src={value}, target={info.ports[name]})"
                     )
 
+                # The assignment above also accepts narrower vectors. A port is connected
+                # directly to the given object, so the widths have to be equal.
+                port_width = getattr(info.ports[name], "width", None)
+                value_width = getattr(value, "width", None)
+
+                if isinstance(port_width, int) and isinstance(value_width, int):
+                    assert port_width == value_width, (
+                        f"width of port '{name}' ({port_width}) does not match the width"
+                        f" of the connected object ({value_width})"
+                    )
+
                 self._cohdl_port_definitions[name] = value
             elif name in info.generics:
                 self._cohdl_generic_definitions[name] = value
